@@ -33,6 +33,8 @@ M=[
  ("m43_read_error_falls_through","C12","src/layered_filesystem.rs","                let bytes = layer.read(&actual_path).map_err(|err| {\n                    LayeredFilesystemError::ReadError(actual_path, err.to_string())\n                })?;","                let bytes = match layer.read(&actual_path) {\n                    Ok(b) => b,\n                    Err(_) => continue,\n                };"),
  ("m44_fe10_little_endian","C12","src/layered_filesystem.rs","            Game::FE9 | Game::FE10 => Endian::Big,","            Game::FE9 => Endian::Big,"),
  ("m45_write_decides_compression_on_actual_path","C12","src/layered_filesystem.rs","        let contents = if self.compression_format.is_compressed_filename(path) {","        let contents = if self.compression_format.is_compressed_filename(&actual_path) && !actual_path.contains(\"/@\") {"),
+ ("m46_clone_forgets_endianness","C12","src/layered_filesystem.rs","            language: self.language,\n            endian: self.endian,","            language: self.language,\n            endian: Endian::Little,"),
+ ("m47_clone_reverses_layers","C12","src/layered_filesystem.rs","        LayeredFilesystem {\n            layers: self.layers.clone(),","        LayeredFilesystem {\n            layers: self.layers.iter().rev().cloned().collect(),"),
  ("m50_list_unsorted_when_single_layer","C13","src/layered_filesystem.rs","        let mut result: Vec<String> = result.into_iter().collect();\n        result.sort();\n        Ok(result)\n    }\n\n    pub fn subdirectories","        let mut result: Vec<String> = result.into_iter().collect();\n        if self.layers.len() > 1 { result.sort(); }\n        Ok(result)\n    }\n\n    pub fn subdirectories"),
  ("m51_subdirectories_include_files","C13","src/layered_filesystem.rs","                        .filter(|p| p.is_dir())\n","                        .filter(|p| p.is_dir() || p.extension().is_none())\n"),
  ("m52_list_skips_bottom_layer","C13","src/layered_filesystem.rs","        let mut result = HashSet::new();\n        for layer in &self.layers {\n            result.extend(layer.list(&path, glob)?);","        let mut result = HashSet::new();\n        for layer in self.layers.iter().skip(if self.layers.len() > 3 { 1 } else { 0 }) {\n            result.extend(layer.list(&path, glob)?);"),
